@@ -324,7 +324,15 @@ Definition step (w : world) (e : event) : world * string :=
     match live_inst w i with
     | None => (w, "invalid")
     | Some it =>
-      if negb (i_original it) then (kill w i it, "P:" ++ msg_verify_clone)
+      if x_unwinding x then
+        (* verify() run by a scope guard while the thread unwinds from a user panic *)
+        if negb (i_original it) then (kill w i it, "ABORT")
+        else (kill w i it,
+              match teardown_panic hinfo (w_bc w) (w_cfg w) (w_state w) x it (count_after_release (w_insts w) it) with
+              | None => "P:user"
+              | Some _ => "ABORT"
+              end)
+      else if negb (i_original it) then (kill w i it, "P:" ++ msg_verify_clone)
       else (kill w i it,
             show_panic (teardown_panic hinfo (w_bc w) (w_cfg w) (w_state w) x it (count_after_release (w_insts w) it)))
     end
